@@ -36,7 +36,7 @@ def check(run):
         for i in range(reps if name == "tsan" else reps * 2):
             n = rng.choice([2, 3, 4, 8, 16])
             d = rng.choice(DOMAINS)
-            line = f"mtfirst {n} {hx(d)}"
+            line = f"mtfirst {n} {hx(d)}" + (" names" if i % 3 == 2 else "")
             code, out, errt = run_fresh(binp, line)
             run.count()
             run.nontriv((name, i, n, d))
